@@ -39,7 +39,8 @@ def self_test_models(v: Verdict, models: list[tuple[str, str, str]]) -> None:
 
 
 def validate_traces(v: Verdict, spec: str, invariants: list[str], records: list[dict], site_fn, clause_props=None,
-                    batch: int = 4000, label: str = "", what_fn=None, env_extra: dict | None = None) -> int:
+                    batch: int = 4000, label: str = "", what_fn=None, env_extra: dict | None = None, spec_name: str = "Spec",
+                    per_trace_states: int = 2) -> int:
     """(C->S) hand recorded executions to TLC.  Every violated T_ invariant becomes a verdict
     for this property (or for nothing, if clause_props says the clause belongs elsewhere).
     Returns the number of traces accepted."""
@@ -48,7 +49,7 @@ def validate_traces(v: Verdict, spec: str, invariants: list[str], records: list[
     sdir = common.scratch(v.prop)
     accepted = 0
     cfg = str(sdir / "trace.cfg")
-    Path(cfg).write_text("SPECIFICATION Spec\n" + "".join(f"INVARIANT {i}\n" for i in invariants) + "CHECK_DEADLOCK FALSE\n")
+    Path(cfg).write_text(f"SPECIFICATION {spec_name}\n" + "".join(f"INVARIANT {i}\n" for i in invariants) + "CHECK_DEADLOCK FALSE\n")
     try:
         for b in range(0, len(records), batch):
             chunk = records[b:b + batch]
@@ -60,7 +61,7 @@ def validate_traces(v: Verdict, spec: str, invariants: list[str], records: list[
             v.add_tlc(r)
             if r.errors:
                 raise Machinery(f"TLC error validating {label or spec}: {r.errors[0][:1500]}")
-            if r.distinct < 2 * len(chunk):
+            if r.distinct < per_trace_states * len(chunk):
                 raise Machinery(f"TLC consumed {r.distinct} states for {len(chunk)} traces ({spec}): {r.raw[-800:]}")
             bad = set()
             for viol in r.violations:
